@@ -365,10 +365,10 @@ def main(tier, seed):
     with open(isrc, "w") as f:
         f.write(PRELUDE % inc + "int main() {\n")
         for n in uargs:
-            f.write(f'  printf("U {n} %s %zu\\n", au::detail::UIToA<{n}ull>::value.c_str(), sizeof(au::detail::UIToA<{n}ull>::value.char_array()));\n')
+            f.write(f'  {{ const auto& a = au::detail::UIToA<{n}ull>::value.char_array(); printf("U {n} %s %zu\\n", hex(a, sizeof(a)).c_str(), sizeof(a)); }}\n')
         for n in iargs:
             lit = f"{n}ll" if n > -(2 ** 63) else "(-9223372036854775807ll - 1)"
-            f.write(f'  printf("I {n} %s %zu\\n", au::detail::IToA<{lit}>::value.c_str(), sizeof(au::detail::IToA<{lit}>::value.char_array()));\n')
+            f.write(f'  {{ const auto& a = au::detail::IToA<{lit}>::value.char_array(); printf("I {n} %s %zu\\n", hex(a, sizeof(a)).c_str(), sizeof(a)); }}\n')
         f.write("  return 0;\n}\n")
     rc, out = cxx(isrc, os.path.join(wd, "itoa"), san=True, opt="-O0")
     if rc != 0:
@@ -378,9 +378,11 @@ def main(tier, seed):
         mans = drv.ask([f"uitoa {n}" for n in uargs] + [f"itoa {n}" for n in iargs])
         lines = [l for l in o.split("\n") if l]
         for line, ma in zip(lines, mans):
-            kind, n, txt, size = line.split()
+            kind, n, hx, size = line.split()
+            raw = bytes.fromhex(hx)          # the whole char array, terminator included
+            txt = raw[:-1].decode("latin-1") if raw.endswith(b"\0") else raw.decode("latin-1")
             stats["itoa_args"] += 1
-            if txt != str(int(n)) or int(size) != len(txt) + 1:
+            if raw != str(int(n)).encode() + b"\0" or int(size) != len(str(int(n))) + 1:
                 violations.append({"what": f"{'UIToA' if kind == 'U' else 'IToA'}<{n}> prints {txt!r} with size {size}", "class": "itoa",
                                    "rec": {"kind": "itoa", "n": n, "got": txt, "size": size}})
             if ma != f"{txt} size={size}":
